@@ -81,5 +81,9 @@ pub broadcast axiom fn axiom_vec_cmp_is_lex<T: Ord>(a: Vec<T>, b: Vec<T>)
     requires T::obeys_cmp_spec(),
     ensures #[trigger] a.cmp_spec(&b) == seq_lex(a@, b@);
 
+// TRUSTED[option-flatten]: Option<Option<T>>::flatten (std doc: "Converts from Option<Option<T>> to Option<T>").
+pub assume_specification<T> [Option::<Option<T>>::flatten] (o: Option<Option<T>>) -> (r: Option<T>)
+    ensures r == (match o { Some(x) => x, None => None::<T> });
+
 }
 }
